@@ -2,8 +2,8 @@
 //! Lock-step reader of the example expression against the item the generator emits for the id.
 
 use crate::checks::c01::truncate;
-use crate::drivers::*;
 use crate::checks::c12::js;
+use crate::drivers::*;
 use crate::engine::*;
 use crate::interp::*;
 use crate::run::*;
@@ -33,7 +33,11 @@ fn toks(e: &impl quote::ToTokens) -> String {
 }
 
 fn omit_generics(path_tokens: &str) -> String {
-    squash(path_tokens).split('<').next().unwrap_or("").to_string()
+    squash(path_tokens)
+        .split('<')
+        .next()
+        .unwrap_or("")
+        .to_string()
 }
 
 impl<'a> Rd<'a> {
@@ -50,7 +54,10 @@ impl<'a> Rd<'a> {
     fn expected_path(&self, id: u32) -> Result<String, (String, String)> {
         match resolve_path(self.reg, self.settings, id) {
             Ok(Ok(p)) => Ok(omit_generics(&p)),
-            other => Err(("path".into(), format!("resolve_type_path({id}) = {other:?}"))),
+            other => Err((
+                "path".into(),
+                format!("resolve_type_path({id}) = {other:?}"),
+            )),
         }
     }
 
@@ -73,16 +80,33 @@ impl<'a> Rd<'a> {
 
     /// field list of a struct / variant literal: `fields` from the registry, `item_fields` from the
     /// generated item (including the marker for unused parameters), `e` the literal
-    fn fields(&self, what: &str, path: &str, fields: &[Field<PortableForm>], item_fields: Option<&FieldsAst>, e: &syn::Expr) -> R {
+    fn fields(
+        &self,
+        what: &str,
+        path: &str,
+        fields: &[Field<PortableForm>],
+        item_fields: Option<&FieldsAst>,
+        e: &syn::Expr,
+    ) -> R {
         // what the generated item looks like (names / arity incl. marker)
-        let (gen_names, gen_arity): (Option<Vec<Option<String>>>, Option<usize>) = match item_fields {
-            Some(f) => (Some(f.list().iter().map(|x| x.name.clone()).collect()), Some(f.list().len())),
+        let (gen_names, gen_arity): (Option<Vec<Option<String>>>, Option<usize>) = match item_fields
+        {
+            Some(f) => (
+                Some(f.list().iter().map(|x| x.name.clone()).collect()),
+                Some(f.list().len()),
+            ),
             None => (None, None),
         };
         match e {
             syn::Expr::Struct(s) => {
                 if toks(&s.path) != path {
-                    return err("literal-path", format!("{what}: literal path `{}`, generated path `{path}`", toks(&s.path)));
+                    return err(
+                        "literal-path",
+                        format!(
+                            "{what}: literal path `{}`, generated path `{path}`",
+                            toks(&s.path)
+                        ),
+                    );
                 }
                 let names: Vec<String> = s.fields.iter().map(|f| toks(&f.member)).collect();
                 if let Some(g) = &gen_names {
@@ -91,9 +115,15 @@ impl<'a> Rd<'a> {
                         return err("field-names", format!("{what}: literal has fields {names:?}, the generated item has {g:?}"));
                     }
                 } else {
-                    let r: Vec<String> = fields.iter().map(|f| f.name.clone().unwrap_or_default()).collect();
+                    let r: Vec<String> = fields
+                        .iter()
+                        .map(|f| f.name.clone().unwrap_or_default())
+                        .collect();
                     if names != r {
-                        return err("field-names", format!("{what}: literal has fields {names:?}, the registry has {r:?}"));
+                        return err(
+                            "field-names",
+                            format!("{what}: literal has fields {names:?}, the registry has {r:?}"),
+                        );
                     }
                 }
                 let mut it = s.fields.iter();
@@ -105,21 +135,42 @@ impl<'a> Rd<'a> {
                 }
                 for extra in it {
                     if !Self::is_marker(&extra.expr) {
-                        return err("marker", format!("{what}: extra field `{}` is not a PhantomData marker", toks(extra)));
+                        return err(
+                            "marker",
+                            format!(
+                                "{what}: extra field `{}` is not a PhantomData marker",
+                                toks(extra)
+                            ),
+                        );
                     }
                 }
                 Ok(())
             }
             syn::Expr::Call(c) => {
                 if toks(&c.func) != path {
-                    return err("literal-path", format!("{what}: literal path `{}`, generated path `{path}`", toks(&c.func)));
+                    return err(
+                        "literal-path",
+                        format!(
+                            "{what}: literal path `{}`, generated path `{path}`",
+                            toks(&c.func)
+                        ),
+                    );
                 }
                 if let Some(n) = gen_arity {
                     if c.args.len() != n {
-                        return err("arity", format!("{what}: literal has {} fields, the generated item has {n}", c.args.len()));
+                        return err(
+                            "arity",
+                            format!(
+                                "{what}: literal has {} fields, the generated item has {n}",
+                                c.args.len()
+                            ),
+                        );
                     }
                     if matches!(item_fields, Some(FieldsAst::Named(_))) {
-                        return err("literal-form", format!("{what}: tuple literal for an item with named fields"));
+                        return err(
+                            "literal-form",
+                            format!("{what}: tuple literal for an item with named fields"),
+                        );
                     }
                 }
                 // (prelude composites are not generated items: only their components are read; the
@@ -133,17 +184,32 @@ impl<'a> Rd<'a> {
                 }
                 for extra in it {
                     if !Self::is_marker(extra) {
-                        return err("marker", format!("{what}: extra field `{}` is not a PhantomData marker", toks(extra)));
+                        return err(
+                            "marker",
+                            format!(
+                                "{what}: extra field `{}` is not a PhantomData marker",
+                                toks(extra)
+                            ),
+                        );
                     }
                 }
                 Ok(())
             }
             syn::Expr::Path(p) => {
                 if toks(p) != path {
-                    return err("literal-path", format!("{what}: literal path `{}`, generated path `{path}`", toks(p)));
+                    return err(
+                        "literal-path",
+                        format!(
+                            "{what}: literal path `{}`, generated path `{path}`",
+                            toks(p)
+                        ),
+                    );
                 }
                 if !fields.is_empty() {
-                    return err("arity", format!("{what}: bare path for a type with {} fields", fields.len()));
+                    return err(
+                        "arity",
+                        format!("{what}: bare path for a type with {} fields", fields.len()),
+                    );
                 }
                 if let Some(n) = gen_arity {
                     if n != 0 {
@@ -152,7 +218,13 @@ impl<'a> Rd<'a> {
                 }
                 Ok(())
             }
-            other => err("literal-form", format!("{what}: expected a struct / tuple-struct / unit literal, found `{}`", truncate(&toks(other), 80))),
+            other => err(
+                "literal-form",
+                format!(
+                    "{what}: expected a struct / tuple-struct / unit literal, found `{}`",
+                    truncate(&toks(other), 80)
+                ),
+            ),
         }
     }
 
@@ -167,10 +239,21 @@ impl<'a> Rd<'a> {
                 let item = self.generated_item(id);
                 let item_fields = match item.map(|i| &i.kind) {
                     Some(ItemKind::Struct(f)) => Some(f),
-                    Some(ItemKind::Enum(_)) => return err("kind", format!("registry composite {id} generated as an enum")),
+                    Some(ItemKind::Enum(_)) => {
+                        return err(
+                            "kind",
+                            format!("registry composite {id} generated as an enum"),
+                        )
+                    }
                     None => None,
                 };
-                self.fields(&format!("struct {}", ty.path.segments.join("::")), &path, &c.fields, item_fields, e)
+                self.fields(
+                    &format!("struct {}", ty.path.segments.join("::")),
+                    &path,
+                    &c.fields,
+                    item_fields,
+                    e,
+                )
             }
             TypeDef::Variant(v) => {
                 let path = self.expected_path(id)?;
@@ -179,7 +262,12 @@ impl<'a> Rd<'a> {
                     syn::Expr::Struct(s) => toks(&s.path),
                     syn::Expr::Call(c) => toks(&c.func),
                     syn::Expr::Path(p) => toks(p),
-                    other => return err("literal-form", format!("enum value is `{}`", truncate(&toks(other), 80))),
+                    other => {
+                        return err(
+                            "literal-form",
+                            format!("enum value is `{}`", truncate(&toks(other), 80)),
+                        )
+                    }
                 };
                 let Some(var_name) = lit_path.strip_prefix(&format!("{path}::")) else {
                     return err(
@@ -188,28 +276,62 @@ impl<'a> Rd<'a> {
                     );
                 };
                 let Some(var) = v.variants.iter().find(|x| x.name == var_name) else {
-                    return err("variant", format!("`{var_name}` is not a variant of {}", ty.path.segments.join("::")));
+                    return err(
+                        "variant",
+                        format!(
+                            "`{var_name}` is not a variant of {}",
+                            ty.path.segments.join("::")
+                        ),
+                    );
                 };
                 let item_fields = match self.generated_item(id).map(|i| &i.kind) {
                     Some(ItemKind::Enum(vs)) => match vs.iter().find(|x| x.name == var_name) {
                         Some(x) => Some(&x.fields),
-                        None => return err("variant", format!("variant `{var_name}` not in the generated enum")),
+                        None => {
+                            return err(
+                                "variant",
+                                format!("variant `{var_name}` not in the generated enum"),
+                            )
+                        }
                     },
-                    Some(ItemKind::Struct(_)) => return err("kind", format!("registry enum {id} generated as a struct")),
+                    Some(ItemKind::Struct(_)) => {
+                        return err("kind", format!("registry enum {id} generated as a struct"))
+                    }
                     None => None,
                 };
-                self.fields(&format!("variant {}::{var_name}", ty.path.segments.join("::")), &lit_path, &var.fields, item_fields, e)
+                self.fields(
+                    &format!("variant {}::{var_name}", ty.path.segments.join("::")),
+                    &lit_path,
+                    &var.fields,
+                    item_fields,
+                    e,
+                )
             }
             TypeDef::Sequence(s) => {
                 let syn::Expr::Macro(m) = e else {
-                    return err("vec", format!("sequence value is `{}`, expected vec![..]", truncate(&toks(e), 80)));
+                    return err(
+                        "vec",
+                        format!(
+                            "sequence value is `{}`, expected vec![..]",
+                            truncate(&toks(e), 80)
+                        ),
+                    );
                 };
                 if !m.mac.path.is_ident("vec") {
-                    return err("vec", format!("sequence value uses macro `{}`", toks(&m.mac.path)));
+                    return err(
+                        "vec",
+                        format!("sequence value uses macro `{}`", toks(&m.mac.path)),
+                    );
                 }
-                let parser = syn::punctuated::Punctuated::<syn::Expr, syn::Token![,]>::parse_terminated;
-                let elems = syn::parse::Parser::parse2(parser, m.mac.tokens.clone())
-                    .map_err(|e| ("vec".to_string(), format!("vec! arguments do not parse: {e}")))?;
+                let parser =
+                    syn::punctuated::Punctuated::<syn::Expr, syn::Token![,]>::parse_terminated;
+                let elems =
+                    syn::parse::Parser::parse2(parser, m.mac.tokens.clone()).map_err(|e| {
+                        (
+                            "vec".to_string(),
+                            format!("vec! arguments do not parse: {e}"),
+                        )
+                    })?;
                 for x in elems.iter() {
                     self.value(s.type_param.id, x)?;
                 }
@@ -220,25 +342,45 @@ impl<'a> Rd<'a> {
                     let n = toks(&r.len);
                     let n = n.trim_end_matches("usize");
                     if n.parse::<u32>().ok() != Some(a.len) {
-                        return err("array-arity", format!("array of length {} written as [x; {}]", a.len, toks(&r.len)));
+                        return err(
+                            "array-arity",
+                            format!("array of length {} written as [x; {}]", a.len, toks(&r.len)),
+                        );
                     }
                     self.value(a.type_param.id, &r.expr)
                 }
                 syn::Expr::Array(arr) => {
                     if arr.elems.len() != a.len as usize {
-                        return err("array-arity", format!("array of length {} written with {} elements", a.len, arr.elems.len()));
+                        return err(
+                            "array-arity",
+                            format!(
+                                "array of length {} written with {} elements",
+                                a.len,
+                                arr.elems.len()
+                            ),
+                        );
                     }
                     for x in arr.elems.iter() {
                         self.value(a.type_param.id, x)?;
                     }
                     Ok(())
                 }
-                other => err("array", format!("array value is `{}`", truncate(&toks(other), 80))),
+                other => err(
+                    "array",
+                    format!("array value is `{}`", truncate(&toks(other), 80)),
+                ),
             },
             TypeDef::Tuple(t) => match e {
                 syn::Expr::Tuple(tu) => {
                     if tu.elems.len() != t.fields.len() {
-                        return err("tuple-arity", format!("tuple of {} written with {} elements", t.fields.len(), tu.elems.len()));
+                        return err(
+                            "tuple-arity",
+                            format!(
+                                "tuple of {} written with {} elements",
+                                t.fields.len(),
+                                tu.elems.len()
+                            ),
+                        );
                     }
                     for (f, x) in t.fields.iter().zip(tu.elems.iter()) {
                         self.value(f.id, x)?;
@@ -247,23 +389,48 @@ impl<'a> Rd<'a> {
                 }
                 other => err(
                     "tuple-arity",
-                    format!("tuple of {} written as `{}` (not a tuple expression)", t.fields.len(), truncate(&toks(other), 80)),
+                    format!(
+                        "tuple of {} written as `{}` (not a tuple expression)",
+                        t.fields.len(),
+                        truncate(&toks(other), 80)
+                    ),
                 ),
             },
             TypeDef::Primitive(p) => {
                 let want_suffix = |e: &syn::Expr, suffix: &str| -> R {
                     let lit = match e {
                         syn::Expr::Lit(l) => &l.lit,
-                        syn::Expr::Unary(u) if matches!(u.op, syn::UnOp::Neg(_)) => match &*u.expr {
-                            syn::Expr::Lit(l) => &l.lit,
-                            _ => return err("literal", format!("`{}` is not a literal", toks(e))),
-                        },
-                        _ => return err("literal", format!("`{}` is not a literal of type {suffix}", truncate(&toks(e), 60))),
+                        syn::Expr::Unary(u) if matches!(u.op, syn::UnOp::Neg(_)) => {
+                            match &*u.expr {
+                                syn::Expr::Lit(l) => &l.lit,
+                                _ => {
+                                    return err(
+                                        "literal",
+                                        format!("`{}` is not a literal", toks(e)),
+                                    )
+                                }
+                            }
+                        }
+                        _ => {
+                            return err(
+                                "literal",
+                                format!(
+                                    "`{}` is not a literal of type {suffix}",
+                                    truncate(&toks(e), 60)
+                                ),
+                            )
+                        }
                     };
                     match lit {
                         syn::Lit::Int(i) if i.suffix() == suffix => Ok(()),
-                        syn::Lit::Int(i) => err("literal-suffix", format!("integer literal `{}` for a {suffix}", toks(i))),
-                        other => err("literal", format!("literal `{}` for a {suffix}", toks(other))),
+                        syn::Lit::Int(i) => err(
+                            "literal-suffix",
+                            format!("integer literal `{}` for a {suffix}", toks(i)),
+                        ),
+                        other => err(
+                            "literal",
+                            format!("literal `{}` for a {suffix}", toks(other)),
+                        ),
                     }
                 };
                 match p {
@@ -276,7 +443,12 @@ impl<'a> Rd<'a> {
                         _ => err("literal", format!("`{}` for a char", toks(e))),
                     },
                     TypeDefPrimitive::Str => match e {
-                        syn::Expr::MethodCall(m) if m.method == "into" && matches!(&*m.receiver, syn::Expr::Lit(l) if matches!(l.lit, syn::Lit::Str(_))) => Ok(()),
+                        syn::Expr::MethodCall(m)
+                            if m.method == "into"
+                                && matches!(&*m.receiver, syn::Expr::Lit(l) if matches!(l.lit, syn::Lit::Str(_))) =>
+                        {
+                            Ok(())
+                        }
                         syn::Expr::Lit(l) if matches!(l.lit, syn::Lit::Str(_)) => Ok(()),
                         _ => err("literal", format!("`{}` for a String", toks(e))),
                     },
@@ -316,7 +488,11 @@ fn reaches_excluded(reg: &PortableRegistry, id: u32) -> bool {
         let Some(t) = reg.resolve(i) else { continue };
         match &t.type_def {
             TypeDef::Composite(c) => stack.extend(c.fields.iter().map(|f| f.ty.id)),
-            TypeDef::Variant(v) => stack.extend(v.variants.iter().flat_map(|v| v.fields.iter().map(|f| f.ty.id))),
+            TypeDef::Variant(v) => stack.extend(
+                v.variants
+                    .iter()
+                    .flat_map(|v| v.fields.iter().map(|f| f.ty.id)),
+            ),
             TypeDef::Sequence(s) => stack.push(s.type_param.id),
             TypeDef::Array(a) => stack.push(a.type_param.id),
             TypeDef::Tuple(t) => stack.extend(t.fields.iter().map(|f| f.id)),
@@ -332,7 +508,14 @@ fn reaches_excluded(reg: &PortableRegistry, id: u32) -> bool {
     false
 }
 
-pub fn check_registry(reg: &PortableRegistry, ids: &[u32], seeds: u64, spec: &SettingsSpec, replay: &dyn Fn(u32, u64) -> Json, ctx: &mut Ctx) {
+pub fn check_registry(
+    reg: &PortableRegistry,
+    ids: &[u32],
+    seeds: u64,
+    spec: &SettingsSpec,
+    replay: &dyn Fn(u32, u64) -> Json,
+    ctx: &mut Ctx,
+) {
     let settings = spec.build();
     let size = reg.types.len();
     // the generated module for this registry (de-duplicated paths are the caller's business)
@@ -357,29 +540,54 @@ pub fn check_registry(reg: &PortableRegistry, ids: &[u32], seeds: u64, spec: &Se
     };
     for &id in ids {
         if reaches_excluded(reg, id) {
-            ctx.exclude("type contains a bit sequence or a 256-bit integer (outside the quantifier)");
+            ctx.exclude(
+                "type contains a bit sequence or a 256-bit integer (outside the quantifier)",
+            );
             continue;
         }
         for seed in 0..seeds {
             ctx.exec(1);
-            let a = guarded(|| rust_value_from_seed(id, reg, &settings, seed, None, None).map(|t| t.to_string()).map_err(|e| format!("{e}")));
-            let b = guarded(|| rust_value_from_seed(id, reg, &settings, seed, None, None).map(|t| t.to_string()).map_err(|e| format!("{e}")));
+            let a = guarded(|| {
+                rust_value_from_seed(id, reg, &settings, seed, None, None)
+                    .map(|t| t.to_string())
+                    .map_err(|e| format!("{e}"))
+            });
+            let b = guarded(|| {
+                rust_value_from_seed(id, reg, &settings, seed, None, None)
+                    .map(|t| t.to_string())
+                    .map_err(|e| format!("{e}"))
+            });
             let code = match a {
                 Err(p) => {
-                    ctx.violation(format!("C14/panic/{}", truncate(&p, 40)), format!("rust_value_from_seed({id}, seed {seed}) panics: {p}"), replay(id, seed), size);
+                    ctx.violation(
+                        format!("C14/panic/{}", truncate(&p, 40)),
+                        format!("rust_value_from_seed({id}, seed {seed}) panics: {p}"),
+                        replay(id, seed),
+                        size,
+                    );
                     continue;
                 }
                 Ok(Err(_)) => {
                     ctx.outcome(&"err");
                     if !matches!(b, Ok(Err(_))) {
-                        ctx.violation("C14/nondeterministic", format!("id {id} seed {seed}: Err once, not the second time"), replay(id, seed), size);
+                        ctx.violation(
+                            "C14/nondeterministic",
+                            format!("id {id} seed {seed}: Err once, not the second time"),
+                            replay(id, seed),
+                            size,
+                        );
                     }
                     continue;
                 }
                 Ok(Ok(c)) => c,
             };
             if !matches!(&b, Ok(Ok(c2)) if *c2 == code) {
-                ctx.violation("C14/nondeterministic", format!("id {id} seed {seed}: two calls with the same seed differ"), replay(id, seed), size);
+                ctx.violation(
+                    "C14/nondeterministic",
+                    format!("id {id} seed {seed}: two calls with the same seed differ"),
+                    replay(id, seed),
+                    size,
+                );
             }
             let expr: syn::Expr = match syn::parse_str(&code) {
                 Ok(e) => e,
@@ -397,7 +605,10 @@ pub fn check_registry(reg: &PortableRegistry, ids: &[u32], seeds: u64, spec: &Se
             if let Err((clause, detail)) = rd.value(id, &expr) {
                 ctx.violation(
                     format!("C14/{clause}"),
-                    format!("example of id {id} (seed {seed}) `{}`: {detail}", truncate(&squash(&code), 240)),
+                    format!(
+                        "example of id {id} (seed {seed}) `{}`: {detail}",
+                        truncate(&squash(&code), 240)
+                    ),
                     replay(id, seed),
                     size,
                 );
@@ -424,7 +635,14 @@ pub fn worker_check(state: &Json, ctx: &mut Ctx) {
         let ids: Vec<u32> = (lo..hi).collect();
         let mut sp = SettingsSpec::faithful();
         sp.root = "runtime_types".into();
-        check_registry(&reg, &ids, seeds, &sp, &|id, seed| json!({"check": "C14", "state": {"polkadot": [id, id + 1], "seeds": seed + 1}}), ctx);
+        check_registry(
+            &reg,
+            &ids,
+            seeds,
+            &sp,
+            &|id, seed| json!({"check": "C14", "state": {"polkadot": [id, id + 1], "seeds": seed + 1}}),
+            ctx,
+        );
     } else {
         let prog: Program = serde_json::from_value(state["prog"].clone()).expect("program");
         let reg = elaborate(&prog).registry;
@@ -449,7 +667,13 @@ pub fn worker_check(state: &Json, ctx: &mut Ctx) {
             state,
             &reg,
             seeds,
-            &|id, r, seed| guarded(|| rust_value_from_seed(id, r, &settings, seed, None, None).map(|t| t.to_string()).map_err(|e| format!("{e}"))),
+            &|id, r, seed| {
+                guarded(|| {
+                    rust_value_from_seed(id, r, &settings, seed, None, None)
+                        .map(|t| t.to_string())
+                        .map_err(|e| format!("{e}"))
+                })
+            },
             ctx,
         );
     }
@@ -479,7 +703,10 @@ pub fn run(tier: &str, seed: u64) -> i32 {
     let mut st = isolated_sweep(
         &format!(
             "{} + D-generic x every id x seeds 0..{seeds} (worker subprocesses)",
-            info.iter().map(|i| i.0.clone()).collect::<Vec<_>>().join(" + ")
+            info.iter()
+                .map(|i| i.0.clone())
+                .collect::<Vec<_>>()
+                .join(" + ")
         ),
         "C14",
         &states,
